@@ -33,7 +33,8 @@ CONSTANTS
   RogueHandshake,          \* the peer also sends CONNECT / CONNACK where none is expected
   PartialFrames,           \* the transport may deliver only the first bytes of a frame before it is lost
   Intervals,               \* values for set_pingreq_send_interval (-1 = None); {} = never called
-  Fire, Close, Erase, IdOps, Crash, Garbage, BadFrames, SendWhileDisc, PeerWhileDisc
+  Fire, Close, Erase, IdOps, Crash, Garbage, BadFrames, SendWhileDisc, PeerWhileDisc,
+  LateFrames          \* frames already in flight still arrive after the connection asked for the close
 
 VARIABLES st,    \* Endpoint state of the object under test
           sh,    \* shadow object [mode, st]: fresh / fixed-version / restored copy (C10, C17, C16)
@@ -80,7 +81,7 @@ AppSends(s, gh) ==
   \cup (IF "pubrel" \in AppKinds
         THEN { AckPkt("pubrel", v, e.pid, 0, s.idw) : e \in { x \in gh.await : x.kind = "pubrel" } } ELSE {})
   \cup UNION { { AckPkt(k, v, pid, rc, s.idw) : pid \in gh.inUn \cup (IF k = "pubcomp" THEN InPids ELSE IF k = "pubrec" THEN gh.handled ELSE {}),
-                                                  rc \in (IF k = "pubrec" /\ v = "v50" THEN Rcs ELSE {0}) }
+                                                  rc \in (IF k \in {"puback", "pubrec"} /\ v = "v50" THEN Rcs ELSE {0}) }
                : k \in AppKinds \cap {"puback", "pubrec", "pubcomp"} }
   \cup UNION { { AckPkt(k, v, pid, 0, s.idw) : pid \in InPids } : k \in AppKinds \cap {"suback", "unsuback"} }
   \cup { Sized(Pk(k, v), s.idw) : k \in AppKinds \cap {"pingreq", "pingresp", "disconnect"} }
@@ -127,7 +128,7 @@ EnvChoices(s, gh) ==
   \cup (IF ~quiet /\ (gh.conn = "connected" \/ SendWhileDisc)
         THEN { [Call("send") EXCEPT !.pkt = p] : p \in AppSends(s, gh) } ELSE {})
   (* peer traffic *)
-  \cup (IF ~quiet /\ ((gh.conn = "connected" /\ gh.tr) \/ PeerWhileDisc)
+  \cup (IF (~quiet /\ ((gh.conn = "connected" /\ gh.tr) \/ PeerWhileDisc)) \/ (LateFrames /\ gh.closeReq /\ gh.tr /\ ~s.partial)
         THEN { [Call("recv") EXCEPT !.pkt = p, !.flag = TRUE] : p \in PeerFrames(s, gh) } ELSE {})
   \cup (IF ~quiet /\ Garbage /\ gh.tr THEN { Call("garbage") } ELSE {})
   \* the transport delivers only the first bytes of a frame and is then lost - in ANY connection state
@@ -145,7 +146,8 @@ EnvChoices(s, gh) ==
   \* state, not part of the export (DESIGN.md, C16 reading)
   \* ... and only in persistent sessions (the property: "before reconnecting with the session present")
   \cup (IF Crash /\ gh.tr /\ gh.nconn >= 1 /\ gh.held = {} /\ ~(\E e \in gh.await : e.kind = "pubrel") /\ gh.persistent
-        THEN { Call("crash") } ELSE {})
+        THEN { [Call("crash") EXCEPT !.flag = hf] : hf \in BOOLEAN }   \* flag: handled-id set restored before the packets
+        ELSE {})
   (* identifiers *)
   \cup (IF ~quiet /\ Cardinality(gh.held) < MaxHeld /\ Cardinality(gh.used) < MaxUsed THEN { Call("acquire") } ELSE {})
   \cup (IF ~quiet /\ IdOps
@@ -191,16 +193,17 @@ Next ==
          spawnFresh == IsConnectCall(c) /\ g.everClosed /\ g.conn = "disc" /\ sh.mode # "restored"
          spawnFixed == IsConnectCall(c) /\ c.op = "recv" /\ st.ver = "undet" /\ c.pkt.ver \in {"v311", "v50"} /\ ~spawnFresh
          base == IF c.op = "crash"
-                 THEN [mode |-> "restored", st |-> RestoreQos2(RestorePackets(FreshLike(st, st.ver), st.store), st.qos2)]
-                 ELSE IF spawnFresh THEN [mode |-> "fresh", st |-> FreshLike(st, st.ver)]
+                 THEN [mode |-> "restored", hf |-> c.flag,   \* hf: the order of the two restore calls (kept in the state so that BOTH are continued)
+                       st |-> RestoreQos2(RestorePackets(FreshLike(st, st.ver), st.store), st.qos2)]
+                 ELSE IF spawnFresh THEN [mode |-> "fresh", hf |-> FALSE, st |-> FreshLike(st, st.ver)]
                  \* a fixed-version server that went through the same identifier-management calls
-                 ELSE IF spawnFixed THEN [mode |-> "fixed", st |-> [FreshLike(st, c.pkt.ver) EXCEPT !.pool = st.pool]]
+                 ELSE IF spawnFixed THEN [mode |-> "fixed", hf |-> FALSE, st |-> [FreshLike(st, c.pkt.ver) EXCEPT !.pool = st.pool]]
                  ELSE sh
          aF == IF base.mode = "none" \/ c.op = "crash" THEN [st |-> base.st, out |-> <<>>, call |-> c]
                ELSE Apply(base.st, c)
          r2 == MkRec(a, IF c.op = "crash" THEN "none" ELSE base.mode, aF)
      IN  /\ st' = a.st
-         /\ sh' = [mode |-> base.mode, st |-> aF.st]
+         /\ sh' = [mode |-> base.mode, hf |-> base.hf, st |-> aF.st]
          /\ rec' = r2
          /\ g' = GhostStep(g, rec, r2)
          /\ hist' = Append(hist, a.call)
